@@ -1,7 +1,7 @@
 """C13 - never more live connection tokens than max_conns; freed slots wake waiters."""
 from fvgen import case, parse_case, parse_out
 
-RULE = ("tok_run: limits 1..4, random histories (length 4..60) of get_token on the runner or a clone, poll, drop-token, drop-pending-request, hand-token-to-Token::run-on-an-idle-connection, hand-token-to-Token::run-on-a-connection-whose-request-is-in-flight-with-its-epilogue-stuck, the-client-of-such-a-connection-drains-its-socket, Runner::shutdown of a clone whose connections are idle (their slots must return to the shared limit), "
+RULE = ("tok_run: limits 1..4, random histories (length 4..60) of get_token on the runner or a clone, poll, drop-token, drop-pending-request, hand-token-to-Token::run-on-an-idle-connection, hand-token-to-Token::run-on-a-connection-whose-request-is-in-flight-with-its-epilogue-stuck, the-client-of-such-a-connection-drains-its-socket, release-of-a-token-by-unwinding (a panicking handler inside Token::run / an unrelated panic in the frame holding it), Runner::shutdown of a clone whose connections are idle (their slots must return to the shared limit), "
         "single-threaded at the granularity of those operations, one counting waker per request; directed histories: k releases in a row with "
         ">= k waiters queued, cancellation of a notified waiter, barging by a fresh request. Oracle: live tokens <= limit at every step, a first "
         "poll with a free slot is Ready, and whenever a slot is free while registered requests are pending at least one pending request has been "
@@ -27,7 +27,7 @@ def gen_ops(rng, maxc, n):
             state[i] = "pending"     # may have become live; the oracle tracks the truth from the observation
         elif r < 0.80 and state:
             i = rng.choice(list(state))
-            ops += [3, i]
+            ops += [rng.choice([3, 3, 3, 11, 12]), i]       # released: dropped, or by unwinding (panicking handler / unrelated panic)
         elif r < 0.90 and state:
             # hand the token (if request i has one) to Token::run: on an idle connection (5), or on a connection with a request in
             # flight whose epilogue cannot be written (8 without / 9 with KeepConn): it stays in use
@@ -108,6 +108,19 @@ def gen_cases(rng, tier):
                     ops += [7, 1] + sum(([10, i] for i in range(1, maxc)), []) + [2, maxc]
                 ops += [3, 0, 2, maxc]
                 yield case("tok_run", [maxc], ops), ["tokens", "directed", "unstall", "waited"]
+    # directed: every slot is released by UNWINDING (a panicking handler inside Token::run, or an unrelated panic in the frame that holds an
+    # unused token) while requests are queued: the waiters must be woken and get the slots
+    for maxc in (1, 2, 3):
+        for how in (11, 12):
+            for cl in (0, 1):
+                ops = []
+                for i in range(maxc):
+                    ops += [1, rng.choice([0, cl]), 2, i]
+                ops += [1, cl, 2, maxc, 2, maxc]
+                for i in range(maxc):
+                    ops += [how if i == 0 else rng.choice([11, 12]), i]
+                ops += [2, maxc] + sum(([1, 0, 2, maxc + 1 + j] for j in range(maxc)), [])
+                yield case("tok_run", [maxc], ops), ["tokens", "directed", "unwinding", "waited"]
     # the configured limit is the limit: exactly max_conns requests complete at once, the next one waits — small limits and limits
     # around 2^16 (async servers are told to configure "a much higher number")
     for m in [1, 2, 3, 7, 64, 255, 256, 257, 1000, 65535, 65536, 65537, 70000] + ([2 ** 17 + 1] if not quick else []):
@@ -123,7 +136,7 @@ def nontrivial(line, tags):
 
 
 def min_classes(tier):
-    return {"directed": 30, "cancel": 16, "random": 1000, "served": 4, "fill": 13, "shutdown": 12, "in-flight": 6, "unstall": 12}
+    return {"directed": 30, "cancel": 16, "random": 1000, "served": 4, "fill": 13, "shutdown": 12, "in-flight": 6, "unstall": 12, "unwinding": 12}
 
 
 def oracle(line, impl_line):
@@ -169,6 +182,8 @@ def oracle(line, impl_line):
             state[x] = "dropped"
             served.discard(x)
             stalled.discard(x)
+        elif op in (11, 12) and state.get(x) == "live" and x not in served and x not in stalled:
+            state[x] = "dropped"          # the token left by unwinding: its slot is free like after any other drop
         elif op in (8, 9) and state.get(x) == "live" and x not in served and x not in stalled:
             if own[x] in dead:
                 state[x] = "dropped"
